@@ -130,7 +130,7 @@ def check_signed(inp: bytes, out: bytes, alg_name: str, key_name: str, kid: int)
         return "protected-header", f"protected header is {got!r} ({prot.value.hex()}), expected {{1: {alg}, 4: bstr(cbor({kid}))}} ({want_prot.hex()})"
     digest_bstr = a2.items[0]
     tbs = refcose.sig_structure(prot.value, digest_bstr.value)
-    pub = vkeys.private_key(vkeys.identity(key_name)).public_key()
+    pub = vkeys.private_key(key_name[:-len("/alt-store")] + "_plain_alt" if key_name.endswith("/alt-store") else vkeys.identity(key_name)).public_key()
     bad = refcose.verify(alg, pub, sig.value, tbs)
     if bad:
         return "signature", bad
@@ -368,6 +368,46 @@ def run_keyname(case, agg):
         agg.ok(h8("c04k", case), f"ok:{case['via']}", sample=case if case["alg"] == "es-384" and case["via"] == "cli" else None)
 
 
+# -- several KMS scripts in one process --------------------------------------------------------------------
+
+def kmsseq_cases(tier):
+    return [{"runs": list(p), "alg": a} for n in (1, 2, 3) for p in itertools.product(("stock", "alt"), repeat=n) for a in (("eddsa", "ed25519"), ("es-256", "p256"))]
+
+
+def run_kmsseq(case, agg):
+    """a history of single-level signings in ONE process with two different KMS scripts that share their file name
+    (basic_kms.py in two directories, each with its own key store holding another key under the same name): every
+    signature verifies under the key of the store whose script was named for THAT run"""
+    from suit_generator import cmd_sign
+    from suit_generator.suit_sign_script_base import SuitSignAlgorithms, SignatureAlreadyPresentActions
+    from .c09 import ALT_KMS
+    b = created_set()["manifest-len-24"]
+    sign_script, kms_script = scripts()
+    alg, kname = case["alg"]
+    label = f"signings in one process with KMS scripts {case['runs']} (same file name), alg {alg}"
+    with fresh_dir("c04s") as d:
+        os.makedirs(os.path.join(d, "alt"))
+        alt = os.path.join(d, "alt", os.path.basename(kms_script))
+        open(alt, "w").write(ALT_KMS % (kms_script, vkeys.key_dir_alt()))
+        inp = os.path.join(d, "in.suit")
+        open(inp, "wb").write(b)
+        for n, which in enumerate(case["runs"]):
+            outp = os.path.join(d, f"out{n}.suit")
+            try:
+                cmd_sign.main(sign_subcommand="single-level", input_envelope=inp, output_envelope=outp, key_name=kname, key_id=0x30 + n,
+                              alg=SuitSignAlgorithms(alg), context=vkeys.key_dir(), sign_script=sign_script,
+                              kms_script=kms_script if which == "stock" else alt, already_signed_action=SignatureAlreadyPresentActions("error"))
+                out = open(outp, "rb").read()
+            except Exception as e:
+                agg.viol(f"C04:kms-scripts/sign-failed/{type(e).__name__}", f"{label}: run {n + 1}: {type(e).__name__}: {str(e)[:200]}")
+                return
+            r = check_signed(b, out, alg, kname if which == "stock" else kname + "/alt-store", 0x30 + n)
+            if r:
+                agg.viol(f"C04:kms-scripts/{r[0]}", f"{label}: run {n + 1} ({which} script): {r[1]}")
+                return
+    agg.ok(h8("c04s", case), f"ok:runs={len(case['runs'])}", sample=case if case["runs"] == ["stock", "alt"] and alg == "es-256" else None)
+
+
 # -- (iii) the sign script's library API on in-memory envelopes -------------------------------------------
 
 LIB_ENVS = ["manifest-len-24", "manifest-len-256"]
@@ -434,6 +474,8 @@ def plan(tier):
         CaseStage("rs-seam", lambda: rs_cases(tier), run_rs, chunk=1, rule="every (r,s) leading-zero pattern, 3 curves, through the KMS ECDSA conversion"),
         CaseStage("key-names", lambda: keyname_cases(tier), run_keyname, chunk=2,
                   rule="6 (alg,key type) x key names with dots (sibling with the truncated name present / absent, PEM / DER) x main / CLI"),
+        CaseStage("kms-scripts-in-one-process", lambda: kmsseq_cases(tier), run_kmsseq,
+                  rule="all sequences of <= 3 single-level signings with {stock KMS script, a second script of the same file name and another key store} x 2 algorithms"),
         core.BfsStage("library-histories", lib_init, lib_step, max_depth=2 if tier == "quick" else 3,
                       rule="histories of sign_envelope calls on one in-memory envelope object: {frozen, dict} content x {fresh, same} Signer x 6 (alg,key)"),
         _VolumeStage("real-signatures", lambda: volume_cases(tier), run_volume, chunk=1, rule="N real ECDSA signatures per curve through SuitKMS.sign"),
